@@ -119,7 +119,7 @@ int32_t jls_tmap_add_cbk(void * user_data, const struct jls_utc_summary_entry_s 
 int64_t interp_i64(struct jls_tmap_s * self, int64_t x0, int64_t const * x, int64_t const * y) {
     // binary search for x index with value less than or equal to x0
     size_t low = 0;
-    size_t high = self->entries_length;
+    size_t high = self->entries_length - 1;  // last valid index
     size_t mid;
     while (low < high) {
         mid = (low + high + 1) / 2;
